@@ -45,7 +45,8 @@ def rule_engine():
 
     return fl.Engine(
         name="R",
-        input_variables=[fl.InputVariable(v, minimum=0.0, maximum=1.0, terms=tri(ts)) for v, ts in tm.IN_VARS.items()],
+        input_variables=[fl.InputVariable(v, minimum=0.0, maximum=1.0, terms=tri(ts)) for v, ts in tm.IN_VARS.items()]
+        + [fl.InputVariable("Bare", minimum=0.0, maximum=1.0)],  # a variable without terms (never used by seed rules)
         output_variables=[fl.OutputVariable(v, minimum=0.0, maximum=1.0, terms=tri(ts), defuzzifier=fl.Centroid(10),
                                             aggregation=fl.Maximum()) for v, ts in tm.OUT_VARS.items()],
         rule_blocks=[fl.RuleBlock("rb", conjunction=fl.Minimum(), disjunction=fl.Maximum(), implication=fl.Minimum(),
@@ -118,6 +119,34 @@ def check_rule_text(ctx, case, text, must_reject=None, engines=None) -> str:
         ctx.check(outcome == "accepted", "create-and-reload-disagree", case, {"text": text})
         ctx.check(old.is_loaded(), "not-loaded-after-successful-load", case, {"text": text})
     return outcome
+
+
+DEGENERATE = [
+    "", " ", "if", "then", "with", "if then", "if  then  with", "if ( ) then Power is LOW", "if () then Power is LOW",
+    "if ( ( ) ) then Power is LOW", "if ( ) ( ) then Power is LOW", "if ( ) then ( )", "if Ambient is DARK then ( )",
+    "if Ambient is DARK then", "if then Power is LOW", "if Ambient is DARK then Power is LOW with",
+    "if Ambient is DARK then Power is LOW with with", "if Bare is any then Power is LOW", "if Bare is not any then Power is LOW",
+    "if Ambient is DARK and Bare is any then Power is LOW", "if Bare is DARK then Power is LOW", "if Bare then Power is LOW",
+    "if Ambient is any any then Power is LOW", "if Ambient is any DARK then Power is LOW", "if any then Power is LOW",
+    "if Ambient is DARK then Power is any", "if Ambient is DARK then Bare is any", "if is then is", "if and then and",
+    "if Ambient is DARK and then Power is LOW", "if or Ambient is DARK then Power is LOW", "if , then Power is LOW",
+    "if Ambient is DARK , Speed is FAST then Power is LOW", "if Ambient is DARK then Power is LOW , Fan is ON",
+    "if Ambient is DARK then Power is LOW with 0.5 # comment", "# only a comment", "if Ambient is DARK # then Power is LOW",
+    "if Ambient\tis\tDARK\tthen\tPower\tis\tLOW", "if Ambient is DARK then Power is LOW with 1e400",
+    "if Ambient is DARK then Power is LOW with -0.5", "if ) Ambient is DARK ( then Power is LOW", "if )( then Power is LOW",
+    "if Ambient is (DARK) then Power is LOW", "if (Ambient) is DARK then Power is LOW", "if Ambient (is) DARK then Power is LOW",
+    "if not Ambient is DARK then Power is LOW", "if Ambient is not then Power is LOW", "if Power is LOW then Ambient is DARK",
+]
+
+
+def check_degenerate(ctx, case) -> None:
+    """Fixed corpus of degenerate rule texts (empty parts, bare parentheses, a variable without terms ...): the outcome
+    oracle only (accepted => usable; rejected => clean exception)."""
+    ctx.ev()
+    text = case["text"].encode().decode("unicode_escape") if "\\t" in case["text"] else case["text"]
+    outcome = check_rule_text(ctx, case, text)
+    ctx.cls("degenerate:" + outcome)
+    ctx.nt(["degenerate", text], {"text": text, "outcome": outcome})
 
 
 def seed_rule_tokens(r):
@@ -346,6 +375,7 @@ def run(ctx) -> None:
     from vlib import runner
 
     mod = sys.modules[__name__]
+    ctx.direct("degenerate", check_degenerate, [{"text": t} for t in DEGENERATE])
     if ctx.tier == "quick":
         runner.run_sharded(ctx, mod, "shard", 8, ex=700)
     else:
@@ -363,6 +393,7 @@ def run(ctx) -> None:
 
 def replay(ctx, prop, case) -> None:
     fn = {"mutated_rule": check_mutated_rule, "injected": check_injected, "mutated_fll": check_mutated_fll,
+          "degenerate": check_degenerate,
           "fuzz_rule_text": check_text_case, "fuzz_fll_text": check_text_case}.get(prop)
     if fn:
         ctx.direct(prop, fn, [case])
